@@ -607,7 +607,7 @@ class SmtLibParser(object):
                 raise PysmtSyntaxError("Expected number in '_ to_bv' expression: "
                                        "'%s'" % op, tokens.pos_info)
             self.consume_closing(tokens, "expression")
-            fnv = cast(FNode, self.get_expression(tokens))
+            fnv = cast(FNode, self.get_expression(tokens, subterm=True))
             if fnv.is_int_constant():
                 v = cast(int, fnv.constant_value())
             else:
@@ -653,10 +653,13 @@ class SmtLibParser(object):
             return self.env.formula_manager.FreshSymbol(typename=type_name,
                                                         template=name + "%d")
 
-    def atom(self, token: str, mgr: FormulaManager) -> FNode:
+    def atom(self, token: str, mgr: FormulaManager, unknown_as_string: bool=False) -> FNode:
         """
         Given a token and a FormulaManager, returns the pysmt representation of
-        the token
+        the token.
+
+        A token that is neither a literal nor a known name is an
+        error, unless unknown_as_string is set.
         """
         res = self.cache.get(token)
         if res is None:
@@ -681,7 +684,7 @@ class SmtLibParser(object):
                 val = val.replace('""', '"')
                 res = mgr.String(val)
             else:
-                # it could be a number or a string
+                # it could be a number
                 try:
                     frac = Fraction(token)
                     if frac.denominator == 1:
@@ -699,6 +702,8 @@ class SmtLibParser(object):
                         res = mgr.Real(frac)
 
                 except ValueError:
+                    if not unknown_as_string:
+                        raise PysmtSyntaxError("Unknown symbol '%s'" % token)
                     # a string constant
                     res = mgr.String(token)
             self.cache.bind(token, res)
@@ -738,7 +743,7 @@ class SmtLibParser(object):
             if vname in newvals:
                 raise PysmtSyntaxError("Variable '%s' is bound twice by the "
                                        "same let" % vname, tokens.pos_info)
-            expr = cast(Union[str, FNode], assert_not_none(self.get_expression(tokens)))
+            expr = cast(Union[str, FNode], assert_not_none(self.get_expression(tokens, subterm=True)))
             newvals[vname] = expr
             # The bindings of a let are simultaneous: a name that already
             # has a meaning keeps it in the other terms bound by the same
@@ -803,7 +808,7 @@ class SmtLibParser(object):
         """Deals with annotations"""
         # pylint: disable=unused-argument
 
-        term = self.get_expression(tokens)
+        term = self.get_expression(tokens, subterm=True)
         assert isinstance(term, FNode)
 
         tk = tokens.consume()
@@ -842,9 +847,13 @@ class SmtLibParser(object):
         tokens.add_extra_token(")")
         stack[-1].append(lambda: term)
 
-    def get_expression(self, tokens: Tokenizer) -> Optional[FNode]:
+    def get_expression(self, tokens: Tokenizer, subterm: bool=False) -> Optional[FNode]:
         """
-        Returns the pysmt representation of the given parsed expression
+        Returns the pysmt representation of the given parsed expression.
+
+        Unknown names are rejected. Only when the whole expression is
+        a single unknown name (and it is not a sub-term of another
+        expression) the name is returned as a string constant.
         """
         mgr = self.env.formula_manager
         stack : List[Any] = []
@@ -883,10 +892,10 @@ class SmtLibParser(object):
                         return res
 
                 else:
-                    try:
+                    if len(stack) > 0:
                         stack[-1].append(self.atom(tk, mgr))
-                    except IndexError:
-                        return self.atom(tk, mgr)
+                    else:
+                        return self.atom(tk, mgr, unknown_as_string=not subterm)
         except StopIteration:
             # No more data when trying to consume tokens
             return None
